@@ -423,6 +423,25 @@ def duplicates(js):
             if (k, v) in seen:
                 out.append((k, v))
             seen[(k, v)] = True
+    # one CAS number, two substances: records sharing a CAS number are parameter variants of one substance on the shipped data
+    # (water models, ortho / para / normal hydrogen) and then agree in molar weight; two different molar weights under one CAS
+    # make every lookup by CAS return the wrong substance for one of them
+    by_cas = {}
+    for rec in js:
+        if isinstance(rec, dict) and isinstance(rec.get("identifier"), dict) and rec["identifier"].get("cas") and isinstance(rec.get("molarweight"), (int, float)):
+            by_cas.setdefault(rec["identifier"]["cas"], []).append(float(rec["molarweight"]))
+    for cas, mws in by_cas.items():
+        if len(mws) > 1 and max(mws) - min(mws) > 1e-3 * max(mws):
+            out.append(("cas", cas))
+    # binary records looked up by CAS: the same unordered CAS pair with different parameters
+    cpairs = {}
+    for rec in js:
+        if isinstance(rec, dict) and isinstance(rec.get("id1"), dict) and isinstance(rec.get("id2"), dict) and rec["id1"].get("cas") and rec["id2"].get("cas"):
+            key = tuple(sorted((rec["id1"]["cas"], rec["id2"]["cas"])))
+            mr = json.dumps(rec.get("model_record"), sort_keys=True)
+            if key in cpairs and cpairs[key] != mr and ("cas-pair", "%s / %s" % key) not in out:
+                out.append(("cas-pair", "%s / %s" % key))
+            cpairs.setdefault(key, mr)
     # binary records: an unordered pair given twice with *different* parameters is ambiguous
     pairs = {}
     for rec in js:
